@@ -1347,23 +1347,32 @@ class Interp:
     def e_Set(self, node, cfg, out):
         return [(c, ListV(vals, "set")) for c, vals in self.ev_list(node.elts, cfg, out)]
 
+    emit_hash = False  # reference semantics: record when a display hashes its keys (BUILD_MAP: after the operands of a run of plain pairs)
+
     def e_Dict(self, node, cfg, out):
-        cur = [(cfg, [])]
+        cur = [(cfg, [], [])]
         for k, v in zip(node.keys, node.values):
             nxt = []
-            for c, items in cur:
+            for c, items, pend in cur:
                 if k is None:
+                    for pk in pend:
+                        c = c.emit(("hash", pk))
                     for c1, vv in self.ev(v, c, out):
                         if isinstance(vv, DictV):
-                            nxt.append((c1, items + list(vv.items)))
+                            nxt.append((c1, items + list(vv.items), []))
                         else:
-                            nxt.append((c1, items + [(App("starstar", (vv,)), vv)]))
+                            nxt.append((c1, items + [(App("starstar", (vv,)), vv)], []))
                 else:
                     for c1, kv in self.ev(k, c, out):
                         for c2, vv in self.ev(v, c1, out):
-                            nxt.append((c2, items + [(kv, vv)]))
+                            nxt.append((c2, items + [(kv, vv)], pend + [kv] if self.emit_hash else pend))
             cur = nxt
-        return [(c, DictV(items)) for c, items in cur]
+        res = []
+        for c, items, pend in cur:
+            for pk in pend:
+                c = c.emit(("hash", pk))
+            res.append((c, DictV(items)))
+        return res
 
     def e_JoinedStr(self, node, cfg, out):
         cur = [(cfg, [])]
@@ -1475,6 +1484,8 @@ class Interp:
                 pass
         if name == "add" and isinstance(l, ListV) and isinstance(r, ListV):
             return ListV(l.items + r.items, l.kind)
+        if name in ("bitor", "bitand", "sub", "bitxor") and isinstance(l, ListV) and isinstance(r, ListV) and "keys" in (l.kind, r.kind):
+            l, r = ListV(l.items, "set"), ListV(r.items, "set")
         if name in ("bitor", "bitand", "sub", "bitxor") and isinstance(l, ListV) and l.kind == "set":
             other = r
             if isinstance(other, Const) and isinstance(other.v, (frozenset, set)):
@@ -1700,7 +1711,7 @@ class Interp:
             r = []
             for c1, k in self.ev(node.key, c, out):
                 for c2, v in self.ev(node.value, c1, out):
-                    r.append((c2, (k, v)))
+                    r.append((c2.emit(("hash", k)) if self.emit_hash else c2, (k, v)))
             return r
 
         res = []
@@ -2019,6 +2030,13 @@ class Interp:
         if fname == "hasattr" and len(args) == 2:
             if isinstance(args[0], NodeV) and isinstance(args[1], Const):
                 return [(cfg, Const(args[1].v in args[0].fields))]
+            if isinstance(args[1], Const) and isinstance(args[1].v, str):
+                if isinstance(args[0], DictV):
+                    return [(cfg, Const(hasattr({}, args[1].v)))]
+                if isinstance(args[0], ListV):
+                    return [(cfg, Const(hasattr({"list": [], "tuple": (), "set": set()}.get(args[0].kind, []), args[1].v)))]
+                if isinstance(args[0], Const):
+                    return [(cfg, Const(hasattr(args[0].v, args[1].v)))]
             return [(cfg, App("hasattr", tuple(args)))]
         if fname == "callable" and len(args) == 1 and isinstance(args[0], (FuncV, ClassV)):
             return [(cfg, TRUE)]
@@ -2109,7 +2127,7 @@ class Interp:
             if meth == "items":
                 return [(cfg, ListV([ListV((k, v), "tuple") for k, v in base.items]))]
             if meth == "keys":
-                return [(cfg, ListV([k for k, _ in base.items]))]
+                return [(cfg, ListV([k for k, _ in base.items], "keys"))]
             if meth == "values":
                 return [(cfg, ListV([v for _, v in base.items]))]
             if meth == "copy":
